@@ -337,6 +337,63 @@ def r8(ctx, r):
         raise AnalysisBroken("no condition-variable wait found in thread_pool.hpp")
 
 
+ALLOWED_REFUSAL = ("_accepting", "_shutdown", "_tasks.size()", "_maxQueueSize", "_state", "_stopping", "_draining")
+
+
+def r9(ctx, r):
+    """refusals have a closed set of reasons; an accepted task always gets a worker"""
+    from ..finite import dominating_facts
+    from ..expr import strip_casts, const_value
+    te = fn(ctx, "tryEnqueueImpl")
+    refusals = [e for e in common.returns(te) if const_value(strip_casts(e.node.get("v") or {})) == 0]
+    if len(refusals) < 3:
+        raise AnalysisBroken("tryEnqueueImpl: %d refusal exits (floor 3)" % len(refusals))
+    for e in refusals:
+        facts = dominating_facts(te, e)
+        r.instance()
+        # the innermost deciding condition: a fact on whose edge this return immediately depends
+        reasons = [show(c) for c, t in facts if any(w in show(c) for w in ALLOWED_REFUSAL)]
+        other = [show(c) for c, t in facts if not any(w in show(c) for w in ALLOWED_REFUSAL)]
+        blk_pred = [b for b in te.blocks.values() if b.cond is not None and e.block.id in [x for x in b.succs if x is not None]]
+        direct = [show(b.cond) for b in blk_pred]
+        ok = bool(direct) and all(any(w in d for w in ALLOWED_REFUSAL) for d in direct)
+        r.expect(ok, te, e, "refusal for another reason", "tryEnqueueImpl refuses the task on the condition `%s`, which is neither 'queue full' nor 'pool draining / shut down': a submission is lost although "
+                 "the pool is running with queue space free (e.g. whenever another thread happens to hold the pool mutex)" % "; ".join(direct or ["?"])[:120], okdesc="refusal on `%s`" % (direct[0][:50] if direct else ""))
+    # the pool mutex is acquired blockingly (a try-lock turns contention into refusal or into unsynchronised access)
+    for nm in ("tryEnqueueImpl", "enqueueImpl"):
+        f = fn(ctx, nm)
+        for e in f.stmts():
+            if e.node.get("k") == "decl":
+                for v in e.node["vars"]:
+                    t = v.get("t") or ""
+                    if "unique_lock" in t or "lock_guard" in t or "scoped_lock" in t:
+                        r.instance()
+                        r.expect("try_to_lock" not in show(v.get("init") or {}) and "defer_lock" not in show(v.get("init") or {}), f, e, "non-blocking pool lock: %s" % nm,
+                                 "%s takes the pool mutex with `%s`: contention then decides whether the task is accepted" % (nm, show(v.get("init") or {})[:60]), okdesc="%s: blocking lock" % nm)
+    # an accepted task always gets a worker: spawnWorker creates its thread unconditionally (the decision was taken under the
+    # lock by the submitter; a second, unsynchronised test of the pool state here can strand the task with no worker at all)
+    sw = fn(ctx, "spawnWorker")
+    thr = [e for e in sw.stmts() if (e.node.get("k") == "decl" and any("std::thread" in (v.get("t") or "") for v in e.node["vars"])) or (e.node.get("k") == "ctor" and e.node.get("cls") == "std::thread")]
+    r.instance()
+    if not thr:
+        raise AnalysisBroken("spawnWorker: thread creation not found")
+    # (a re-test of the thread cap under the lock is a legitimate reason to skip: then another worker exists)
+    capb = [b for b in sw.blocks.values() if b.cond is not None and "_threads.size()" in show(b.cond) and "_maxSize" in show(b.cond)]
+    w = search(sw, ("entry",), "exit", stop=lambda x: x in thr or any(x.block is b for b in capb), eh=False)
+    r.expect(w is None, sw, thr[0], "spawn skipped", "spawnWorker can return without creating the worker thread: a task that was accepted (and for which the submitter decided, under the lock, that a worker is needed) "
+             "may never be dequeued — its future never becomes ready and drain()/stop() time out or return with the task still queued", witness=witness_str(sw, w), okdesc="spawnWorker always creates the thread")
+    # both submit paths: push under the lock, spawn decision under the same lock, notify after the push
+    for nm in ("tryEnqueueImpl", "enqueueImpl"):
+        f = fn(ctx, nm)
+        push = [e for e in f.stmts() if tasks_call(e.node, ("emplace", "push"))]
+        sp = [e for e in f.stmts() if e.node.get("k") == "mcall" and last(e.node.get("callee", "")) == "spawnWorker"]
+        nt = [e for e in f.stmts() if e.node.get("k") == "mcall" and last(e.node.get("callee", "")) in ("notify_one", "notify_all")]
+        r.instance()
+        ok = len(push) == 1 and len(sp) == 1 and len(nt) >= 1 and search(f, push[0], "exit", stop=lambda x: x in nt, eh=False) is None
+        r.expect(ok, f, push[0] if push else None, "accepted task not announced: %s" % nm, "%s can return after queueing the task without notifying a worker" % nm, okdesc="%s: push → (spawn) → notify on every path" % nm)
+
+
+
 def run(ctx, ck):
     ck.run_rule("C09-R1", "lock table of the pool", "A1 guarded-by", lambda r: r1(ctx, r))
     ck.run_rule("C09-R2", "acceptance is atomic with the shutdown and queue-limit tests", "A5 + A1, sibling", lambda r: r2(ctx, r))
@@ -345,4 +402,5 @@ def run(ctx, ck):
     ck.run_rule("C09-R5", "destruction/stop signal under the lock, notify all, join everything", "A2 + A5", lambda r: r5(ctx, r))
     ck.run_rule("C09-R6", "result-returning submit: packaged_task protocol", "A10", lambda r: r6(ctx, r))
     ck.run_rule("C09-R7", "thread cap is decided in the inserting critical section", "A5 + A1", lambda r: r7(ctx, r))
+    ck.run_rule("C09-R9", "refusals have a closed set of reasons; an accepted task always gets a worker and a wake-up", "A2 dominance + closed table", lambda r: r9(ctx, r))
     ck.run_rule("C09-R8", "condition-variable discipline for the worker wait", "A1", lambda r: r8(ctx, r))
